@@ -18,6 +18,7 @@ INVARIANT OmegaLaw
 INVARIANT OriginLaw
 INVARIANT Roundtrip
 INVARIANT EwaldBound
+INVARIANT BraggLaw
 INVARIANT AxisLaw
 INVARIANT Emit
 CHECK_DEADLOCK FALSE
